@@ -8,9 +8,10 @@ import RpyModel.Drv.C17
 import RpyModel.Drv.C20
 import RpyModel.Drv.C04
 import RpyModel.Drv.C10
+import RpyModel.Drv.C19
 open Lean
 
-def dispatch (R : Type) [Num R] [Inhabited R] (kind : String) (j : Json) : Except String Json :=
+def dispatch (R : Type) [Num R] [Inhabited R] [NatCast R] (kind : String) (j : Json) : Except String Json :=
   match kind with
   | "reservoir_run" => Drv.handleReservoirRun R j
   | "nvar_run" => Drv.handleNvarRun R j
@@ -20,6 +21,9 @@ def dispatch (R : Type) [Num R] [Inhabited R] (kind : String) (j : Json) : Excep
   | "ridge_fit" => Drv.handleRidgeFit R j
   | "online_train" => Drv.handleOnlineTrain R j
   | "ip_fit" => Drv.handleIpFit R j
+  | "metrics" => Drv.handleMetrics R j
+  | "eff_matrix" => Drv.handleEffMatrix R j
+  | "rho_diag" => Drv.handleRhoDiag R j
   | "readout_forward" => Drv.handleReadoutForward R j
   | "one_hot" => Drv.handleOneHot j
   | "map_steps" => Drv.handleMapSteps R j
